@@ -374,7 +374,12 @@ class Gen:
             if entry:
                 inserts.append((it.body_open + 1, "\n" + entry.rstrip("\n") + "\n", ("spec", f"{key}/entry")))
             lps = loops_in_fn(src, it)
-            for k, ls in (spec.get("loops") or {}).items():
+            loop_specs = spec.get("loops") or {}
+            if not lps and spec.get("loops_if_present"):
+                # the function was rewritten without loops (e.g. `for .. insert` as `extend`): its contract is then checked
+                # against the specifications of what it calls instead; loop-entry proof text has nowhere to go
+                loop_specs = {}
+            for k, ls in loop_specs.items():
                 k = int(k)
                 if k >= len(lps):
                     raise GenError(f"{key}: loop #{k} not found (function has {len(lps)} loops)")
@@ -393,6 +398,8 @@ class Gen:
                 if ls.get("entry"):
                     inserts.append((bopen + 1, "\n" + ls["entry"].rstrip("\n") + "\n", ("spec", f"{key}/loop{k}/entry")))
             for anc in (spec.get("anchors") or []):
+                if anc.get("with_loops") and not lps and spec.get("loops_if_present"):
+                    continue  # proof text that prepares a loop invariant: goes with the loops
                 body_txt = s[it.body_open:it.end]
                 pos, startp = -1, 0
                 if anc.get("after_re"):
